@@ -4,15 +4,15 @@
 
    The functions are the model of the Rust code (Model/Keys.v, tied by the correspondence run) on
    the reference curve instance `curve_ref` (Prim/Secp256k1.v over Z).
-   Explicit premise: `sqrt_ok` (Euler's criterion for the field prime: the candidate square root
-   alpha^((p+1)/4) of a square y^2 is y or -y; it needs the primality of p, which is not proved) in
-   every statement that says a COMPRESSED encoding of a given curve point is accepted / decompressed.
+   No premise is left: the square-root fact `sqrt_ok` (the candidate root alpha^((p+1)/4) of a square y^2 is y or
+   -y) that the COMPRESSED-encoding statements used to assume is now a theorem (Proofs/SecpPrimes.v: the field
+   prime is proved prime from a Pratt certificate checked inside Coq, Fermat's little theorem in Proofs/Primality.v).
    "Equals an independent secp256k1 / Base58Check implementation" is the correspondence run against
    Prim/Secp256k1.v, Prim/Base58.v, Prim/Sha256.v, Prim/Ripemd160.v (see tools/props/c07.py). *)
 From BSV Require Import Base.Hex.
 From BSV Require Import Prim.Num Prim.Secp256k1 Prim.Base58 Prim.Sha256 Prim.Ripemd160.
 From BSV Require Import Model.HashApi Model.Opcodes Model.Script Model.Asm Model.Keys.
-From BSV Require Import Proofs.Secp256k1Proofs Proofs.KeysProofs.
+From BSV Require Import Proofs.Secp256k1Proofs Proofs.KeysProofs Proofs.KeysUncond Proofs.SecpPrimes.
 Local Open Scope Z_scope.
 
 (* 0. Base58 itself (bs58 as modelled in Prim/Base58.v): lossless for every byte string, leading zero
@@ -147,10 +147,10 @@ Proof. exact pubkey_accepted_is_point. Qed.
 Print Assumptions C07_pubkey_accepted_is_point.
 
 Theorem C07_pubkey_point_accepted :
-  forall c x y, sqrt_ok -> 0 <= x < secp_p -> 0 <= y < secp_p -> on_curve (Some (x, y)) = true ->
+  forall c x y, 0 <= x < secp_p -> 0 <= y < secp_p -> on_curve (Some (x, y)) = true ->
     pub_from_bytes curve_ref (sec1_encode c (Some (x, y)))
     = Ok {| pk_point := sec1_encode c (Some (x, y)); pk_compressed := c |}.
-Proof. exact pubkey_point_accepted. Qed.
+Proof. exact pubkey_point_accepted_u. Qed.
 Print Assumptions C07_pubkey_point_accepted.
 
 Theorem C07_pubkey_rejects :
@@ -165,13 +165,13 @@ Print Assumptions C07_pubkey_rejects.
 
 (* compressing and decompressing are mutually inverse on every curve point *)
 Theorem C07_compress_decompress_inverse :
-  forall x y, sqrt_ok -> 0 <= x < secp_p -> 0 <= y < secp_p -> on_curve (Some (x, y)) = true ->
+  forall x y, 0 <= x < secp_p -> 0 <= y < secp_p -> on_curve (Some (x, y)) = true ->
     let P := Some (x, y) in
     pub_to_decompressed curve_ref (pk_of true P) = Ok (pk_of false P)
     /\ pub_to_compressed (pk_of false P) = Ok (pk_of true P)
     /\ pub_to_decompressed curve_ref (pk_of false P) = Ok (pk_of false P)
     /\ pub_to_compressed (pk_of true P) = Ok (pk_of true P).
-Proof. exact compress_decompress_inverse. Qed.
+Proof. exact compress_decompress_inverse_u. Qed.
 Print Assumptions C07_compress_decompress_inverse.
 
 Theorem C07_to_public_key :
@@ -241,3 +241,14 @@ Example C07_genesis_locking :
        (do a <- addr_from_string "1A1zP1eP5QGefi2DMPTfTL5SLmv7DivfNa"; addr_locking_script a)
   = Ok "76a91462e907b15cbf27d5425399ebf6f0fb50ebb88f1888ac".
 Proof. vm_compute. reflexivity. Qed.
+
+(* the number theory behind the compressed form: the field prime and the group order are prime *)
+Theorem C07_field_prime : Znumtheory.prime secp_p.
+Proof. exact secp_p_prime. Qed.
+Print Assumptions C07_field_prime.
+
+Theorem C07_sqrt_candidate :
+  forall y, 0 <= y < secp_p ->
+    let b := fpow Z_ops secp_p ((y * y) mod secp_p) secp_sqrt_exp in b = y \/ b = (secp_p - y) mod secp_p.
+Proof. exact sqrt_ok_holds. Qed.
+Print Assumptions C07_sqrt_candidate.
